@@ -89,8 +89,12 @@ func (set *Set) GetRandom(count int) []string {
 		return []string{}
 	}
 
-	if internal.AbsInt(count) >= set.Cardinality() {
+	if count > 0 && count >= set.Cardinality() {
 		return keys
+	}
+
+	if len(keys) == 0 {
+		return []string{}
 	}
 
 	res := []string{}
